@@ -23,6 +23,11 @@ checked decoder, which all need at least five bytes). -/
 theorem base58_decode_invalid (s : List UInt8) (h : b58Valid s = false) : b58Decode s = [] :=
   Lemmas.b58Decode_invalid s h
 
+/-- The loops as written in Go — ten base-58 digits at a time through a machine word, the big number touched once
+per chunk — compute exactly the plain radix conversion the theorems above are about. -/
+theorem base58_encode_algo_eq (b : List UInt8) : b58EncodeAlgo b = b58Encode b := Lemmas.b58EncodeAlgo_eq b
+theorem base58_decode_algo_eq (s : List UInt8) : b58DecodeAlgo s = b58Decode s := Lemmas.b58DecodeAlgo_eq s
+
 /-! ### Base58Check (`H` = the 4-byte checksum function; first four bytes of double-SHA256 in btcd) -/
 
 /-- `CheckDecode` accepts exactly the strings whose decoding is `version ‖ payload ‖ H(version ‖ payload)`:
